@@ -11,6 +11,8 @@ pub mod c09;
 pub mod c10;
 pub mod io_common;
 pub mod c15;
+pub mod c16;
+pub mod c17;
 pub mod c19;
 pub mod c20;
 pub mod hist_props;
@@ -20,5 +22,5 @@ pub mod c04_positer;
 use crate::run::Property;
 
 pub fn all() -> Vec<&'static dyn Property> {
-    vec![&c01::C01, &c02::C02, &c03::C03, &c04::C04, &c06::C06, &c07::C07, &c08::C08, &c09::C09, &c10::C10, &c15::C15, &c19::C19, &c20::C20, &hist_props::C05, &hist_props::C11, &hist_props::C12, &hist_props::C13, &hist_props::C14, &hist_props::C18]
+    vec![&c01::C01, &c02::C02, &c03::C03, &c04::C04, &c06::C06, &c07::C07, &c08::C08, &c09::C09, &c10::C10, &c15::C15, &c16::C16, &c17::C17, &c19::C19, &c20::C20, &hist_props::C05, &hist_props::C11, &hist_props::C12, &hist_props::C13, &hist_props::C14, &hist_props::C18]
 }
